@@ -273,6 +273,19 @@ def lunmap (d : DD β) : DD β :=
   { d with loc  := fun b => if d.loc b ≠ 0 then d.loc b else locP b
            pend := d.pend ++ preloadHoles d d.nb ++ merge }
 
+/-- `Server.UpdateLUNMap` with foreground I/O between its preload pass and the merge: the extents
+    were scanned in state `d0` (the lock is released during the scan), `d` is the state when the lock
+    is taken again for the merge.  Where the live map meanwhile points above the scanned owner, the
+    scanned owner's copy is queued for punching — unless a retained user-created snapshot would lose it. -/
+def lunmapAfter (d0 d : DD β) : DD β :=
+  let locP := fun b => if b < d0.nb then (preloadBlock d0 b d0.top).1 else 0
+  let merge := (List.range d.nb).filterMap fun b =>
+    if locP b ≠ 0 ∧ locP b < d.loc b ∧ lastMark d.marks d.top < locP b ∧ d.punch then some (locP b, b) else none
+  { d with loc  := fun b => if d.loc b ≠ 0 then d.loc b else locP b
+           pend := d.pend ++ preloadHoles d0 d0.nb ++ merge }
+
+theorem lunmapAfter_self (d : DD β) : d.lunmapAfter d = d.lunmap := rfl
+
 /-- `construct` on an existing directory (Close+Open, Reload, and the tail of Revert). -/
 def reopen (d : DD β) (pre : Bool) : DD β :=
   let d0 : DD β := { d with loc := fun _ => 0, marks := d.uc, snapIdx := lastMark d.uc d.top, pend := [] }
